@@ -29,6 +29,7 @@ class Seams:
         self.uuid_rng = random.Random(0)
         self.on_event = None      # crashsim: callback(kind, info) before/after file operations
         self.write_hook = None    # crashsim: callback(path, fobj_so_far_len, data)
+        self.on_hit = None        # threadsim: callback(kind) at every seam call (semantic phase of the running thread)
 
     # -- configuration ---------------------------------------------------------------------------
     def set_root(self, root):
@@ -60,6 +61,8 @@ class Seams:
         """Called at every seam call made by the library. May raise the armed fault."""
         if not self.lib_active:
             return
+        if self.on_hit is not None:
+            self.on_hit(kind)
         idx = self.calls
         self.calls += 1
         self.count_by[kind] = self.count_by.get(kind, 0) + 1
@@ -275,5 +278,6 @@ def reset():
     s.audit = []
     s.on_event = None
     s.write_hook = None
+    s.on_hit = None
     s.uuid_rng = random.Random(0)
     return s
